@@ -142,7 +142,7 @@ func treesEqual(a, b interface{}) bool {
 var bsu = string([]byte{92, 117})
 
 func checkC07(c *hx.Ctx) {
-	c.Rule("value trees: exhaustive over all ordered pairs and a third of triples of 30 tricky keys (UTF-16 vs code-point order, controls, escapes), all scalars (30 strings, 30 boundary numbers, literals) in arrays and objects, nested to depth 2, plus random deeper trees; each tree in 6 re-serializations (member order, whitespace, \\u escapes both hex cases, surrogate pairs, \\/, number spellings) through MarshalCanonical([]byte) and, for the value path, MarshalCanonical(value); oracle: output == independent RFC 8785 serialization of the tree (Go reference; Python reference cross-checks every accepted document and every number), fixed point, parses back to the same value; doubles by random bit pattern; rejection classes (duplicate names incl. escaped spelling, truncation at every byte, invalid escapes, lone surrogates in all shapes, raw control characters, trailing content after top-level objects and after top-level arrays) must return an error; after every call (accepted or rejected) the same process canonicalizes a fixed probe document, which must come out unchanged (no state leaking between calls); eight goroutines canonicalize hundreds of documents (value path and byte path) at once, each result compared with the call made alone, under the race detector; executed in crash-isolated workers; non-trivial = tree with >=2 members or a non-integer number; distinct = distinct input byte strings")
+	c.Rule("value trees: exhaustive over all ordered pairs and a third of triples of 30 tricky keys (UTF-16 vs code-point order, controls, escapes), all scalars (30 strings, 30 boundary numbers, literals) in arrays and objects, nested to depth 2, plus random deeper trees; each tree in 6 re-serializations (member order, whitespace, \\u escapes both hex cases, surrogate pairs, \\/, number spellings) through MarshalCanonical([]byte) and, for the value path, MarshalCanonical(value); oracle: output == independent RFC 8785 serialization of the tree (Go reference; Python reference cross-checks every accepted document and every number), fixed point, parses back to the same value; doubles by random bit pattern; rejection classes (duplicate names incl. escaped spelling, truncation at every byte, invalid escapes, lone surrogates in all shapes, raw control characters inside strings and between tokens, trailing content after top-level objects and after top-level arrays) must return an error; after every call (accepted or rejected) the same process canonicalizes a fixed probe document, which must come out unchanged (no state leaking between calls); eight goroutines canonicalize hundreds of documents (value path and byte path) at once, each result compared with the call made alone, under the race detector; executed in crash-isolated workers; non-trivial = tree with >=2 members or a non-integer number; distinct = distinct input byte strings")
 	c.Assume("references: harness/ref/jcs.go (Go, strconv shortest digits) and pyref/jcs_ref.py (Python repr digits); invalid UTF-8 and lenient number spellings are out of the statement's scope")
 	pool := hx.NewPool(c, "jcs", 16, 4*1024*1024, 30*time.Second)
 	defer pool.Close()
@@ -613,6 +613,16 @@ func checkC07(c *hx.Ctx) {
 			}
 		}
 	}
+	// raw control characters OUTSIDE string literals (only space, tab, LF and CR are JSON whitespace): between tokens, before
+	// and after the top-level value, ending a number or a literal
+	for ch := 0; ch < 0x20; ch++ {
+		if ch == '\t' || ch == '\n' || ch == '\r' {
+			continue
+		}
+		for _, f := range []string{"%c{\"a\":1}", "{\"a\":[1,2]}%c", "[1,%c2]", "{%c}", "[%c]", "{\"a\"%c:1}", "{\"a\":%c\"b\"}", "[12%c]", "[true%c,null]", "{\"a\":{\"b\":[]%c}}", "[[]]%c ", " %c[\"x\"]"} {
+			reject("raw-control-character-between-tokens", fmt.Sprintf(f, ch))
+		}
+	}
 	for _, s := range []string{`["abc`, `["abc\"`, `{"a`, `{"a":"b`, `["é`, `[`, `{`, `[[1,2`, `{"a":{"b":[`, `["a","b`, `{"k":1,`, `[1,`, `{"k":`, `{"k"`, `["\`} {
 		reject("unterminated", s)
 		reject("unterminated", s+" ")
@@ -646,7 +656,7 @@ func checkC07(c *hx.Ctx) {
 	}
 	c.Set("worker_crashes", pool.Crashes)
 	for _, cl := range []string{"duplicate-name", "duplicate-name-escaped", "truncation", "trailing-content", "trailing-content-after-array", "invalid-escape", "lone-surrogate-high",
-		"lone-surrogate-low", "lone-surrogate-low-first", "raw-control-character", "raw-control-character-after-escape", "unterminated"} {
+		"lone-surrogate-low", "lone-surrogate-low-first", "raw-control-character", "raw-control-character-after-escape", "raw-control-character-between-tokens", "unterminated"} {
 		c.Floor("rejected:"+cl, 50)
 	}
 	c.Floor("trees:key-pair", 800)
